@@ -32,7 +32,9 @@ WIRE_LEGAL = set([1000, 1001, 1002, 1003, 1007, 1008, 1009, 1010, 1011, 1012, 10
 
 def gen_history(rng, tier):
     cfg = wsgen.rand_cfg(rng, timers=True)
-    cfg.pop("pi", None), cfg.pop("pt", None)   # auto-ping timers belong to C17
+    if rng.random() < 0.65:
+        cfg.pop("pi", None), cfg.pop("pt", None)   # auto-ping timers are C17's subject; a third of the histories keep
+        # them, because a ping timeout is one more way a CLOSING connection gets dropped (interaction with the drop timers)
     for k in ("mf", "mm", "af"):
         cfg.pop(k, None)
     need_mask = bool(cfg["srv"])
